@@ -261,7 +261,7 @@ type mergePop struct {
 	next  int
 }
 
-func buildMergePop(r Rng) *mergePop {
+func buildMergePop(r Rng, disjoint bool) *mergePop {
 	cfg := bs.DefaultBloomSearchEngineConfig()
 	cfg.PartitionFunc = partitionFunc("p")
 	cfg.MaxBufferedTime = time.Hour
@@ -271,9 +271,20 @@ func buildMergePop(r Rng) *mergePop {
 	env := NewEnv(cfg)
 	nfiles := 4 + r.IntN(3)
 	id := 0
+	// every second population keeps each file inside one partition, so that the merge forms several groups
+	// (one per partition) and faults can land in a later group after an earlier one has completed
+	shapes := [][]string{{"a"}, {"a", "b"}, {"a", "c"}}
+	if disjoint {
+		shapes = [][]string{{"a"}, {"b"}, {"a", "a"}, {"b", "b"}}
+	}
 	for f := 0; f < nfiles; f++ {
 		var rows []map[string]any
-		for _, p := range pick(r, [][]string{{"a"}, {"a", "b"}, {"a", "c"}}) {
+		shape := pick(r, shapes)
+		if disjoint && f < 4 {
+			// at least two files per partition: two groups for certain
+			shape = [][]string{{"a"}, {"a", "a"}, {"b"}, {"b", "b"}}[f]
+		}
+		for _, p := range shape {
 			id++
 			rows = append(rows, map[string]any{"_id": id, "p": p, "pad": strings.Repeat("x", 20)})
 		}
@@ -284,6 +295,9 @@ func buildMergePop(r Rng) *mergePop {
 	sz, _ := fileStats(files[0].Metadata)
 	pop := &mergePop{cfg: cfg, files: env.Data.Published(), metas: files, next: env.Data.next}
 	pop.cfg.MaxFileSize = pick(r, []int{sz*2 + sz/2, sz*3 + sz/2, 1 << 30})
+	if disjoint {
+		pop.cfg.MaxFileSize = 1 << 30
+	}
 	env.Stop()
 	return pop
 }
@@ -324,9 +338,9 @@ func runC13(c *ctx) {
 		"position (exhaustive) on an identical copy and the return value, MetaStore content, tombstones and a match-all query are compared with the Lean merge protocol; plus concurrent Merge calls. " +
 		"Non-trivial = the fault was reached; distinct by (population, position)"
 	r := NewRng(c.seed, 1300)
-	pops := 3 * c.scale
+	pops := 4 * c.scale
 	for pi := 0; pi < pops; pi++ {
-		pop := buildMergePop(r)
+		pop := buildMergePop(r, pi%2 == 1)
 		base := pop.instantiate()
 		before := pointerSet(base.Meta)
 		beforeIDs, _ := visibleIDs(base.Eng)
